@@ -14,6 +14,24 @@ HK, K_RY, H_RY = z3.Reals("HK K_RY H_RY")
 CONST_FACTS = [HK > 0, K_RY > 0, H_RY > 0, HK * K_RY == H_RY]
 
 
+def constant_globals(m):
+    """module-level float globals of nonshear.py whose value is hc [Ry cm], k_B [Ry/K] or hc/k_B [cm K] as the module's own unit registry converts them (a refactoring
+    may convert them once at import instead of in every property body): name -> the symbol the contract uses for that constant"""
+    try:
+        u = m.units
+        real = {"H_RY": (u.Quantity(m._h, u.J * u.m).to(u.rydberg * u.cm).magnitude, H_RY), "K_RY": (u.Quantity(m._k, u.eV / u.K).to(u.rydberg / u.K).magnitude, K_RY),
+                "HK": (u.Quantity(m._h / m._k, u.J * u.m / u.eV * u.K).to(u.cm * u.K).magnitude, HK)}
+    except Exception:
+        return {}
+    out = {}
+    for name, val in list(vars(m).items()):
+        if isinstance(val, float) and name not in ("_h", "_k", "h_div_k"):
+            for v, sym in real.values():
+                if v != 0 and abs(val - v) <= 1e-12 * abs(v):
+                    out[name] = Sc(sym)
+    return out
+
+
 class _Unit:
     def __init__(self, exps):
         self.exps = {k: v for k, v in exps.items() if v}
@@ -183,7 +201,9 @@ class Env:
         m = self.nonshear
         L = m.LongitudinalElasticModulusPhononContribution
         self._orig = dict(numpy=m.numpy, units=m.units, h_div_k=m.h_div_k, q_weights=L.__dict__["q_weights"])
-        with patched(m, numpy=SymNumpy(), units=UnitsStub(m), h_div_k=Sc(HK)), \
+        consts = constant_globals(m)           # module-level floats that ARE one of the three converted constants (computed at import): the same symbols
+        self._orig.update({k: getattr(m, k) for k in consts})
+        with patched(m, numpy=SymNumpy(), units=UnitsStub(m), h_div_k=Sc(HK), **consts), \
                 class_attr(L, "q_weights", property(lambda s, w=self.w: w)):
             yield
 
@@ -196,7 +216,7 @@ class Env:
         if o is None:
             yield
             return
-        with patched(m, numpy=o["numpy"], units=o["units"], h_div_k=o["h_div_k"]), class_attr(L, "q_weights", o["q_weights"]):
+        with patched(m, **{k: v for k, v in o.items() if k != "q_weights"}), class_attr(L, "q_weights", o["q_weights"]):
             yield
 
     def make(self, kind):
